@@ -86,7 +86,8 @@ class Registry:
         self.lemmas: list[Any] = []
         self.groups: dict[str, list[str]] = {}
         self.symbolic_consts: dict[str, str] = {}
-        self.const_checks: list[dict] = []  # property id -> contract keys verified for it
+        self.const_checks: list[dict] = []
+        self.overrides: dict[str, str] = {}  # property id -> contract keys verified for it
         self._file: str | None = None
 
     # ------------------------------------------------------------ sidecar API
@@ -170,6 +171,13 @@ class Registry:
             if ":" not in k:
                 k = f"{self._file}:{k}"
             self.inline.add(k)
+
+    def override(self, key: str, target: str) -> None:
+        """A repository function outside the engine's subset is replaced, at its call sites, by a trusted model function
+        (listed in the evidence like every stub)."""
+        if ":" not in key:
+            key = f"{self._file}:{key}"
+        self.overrides[key] = target
 
     def stubs(self, path: str, dotted: str) -> None:
         self.stub_files.append((path, dotted))
